@@ -60,7 +60,7 @@ def make_case(args):
             vals = np.arange(n, dtype=float) * 1.5
         extra.append((nme, vals))
     npos = int(np.prod(shape)) if shape else 1
-    E = np.array([gen.gen_spectrum(rng, nf, nd, kind=rng.choice(["blobs", "blobs", "noisy", "ties", "sparse", "plateau", "zero"]))[0]
+    E = np.array([gen.gen_spectrum(rng, nf, nd, kind=rng.choice(["blobs", "blobs", "noisy", "ties", "sparse", "plateau", "zero", "const"]))[0]
                   for _ in range(npos)]).reshape(tuple(shape) + (nf, nd))
     da = gen.make_da(freq, dirs, E, extra=extra)
     dims = list(da.dims)
